@@ -174,7 +174,7 @@ def get_at(value, steps):
 # a covering set of valid values
 
 def _leaf_base(l):
-    d = leaf_dom(l, big=False)
+    d = leaf_dom(l, big=False) or leaf_dom(l, big=True)     # (a fixed SIZE above 300 has only big values)
     return d[0]
 
 
